@@ -515,7 +515,7 @@ func (e *Engine) verifyShard(fn *ssa.Function, fc *FuncContract, opts VerifyOpts
 		val := x.mkFresh(elem, "free_"+fv.Name())
 		st.cellv[c] = val
 		fr.binds = append(fr.binds, Ptr{Cell: c, Elem: elem})
-		entryVars[fv.Name()] = val
+		// (not in entryVars: a captured variable denotes its CURRENT value in postconditions; old(...) reads the entry state)
 		if x.freeCells == nil {
 			x.freeCells = map[string]*Cell{}
 		}
